@@ -37,6 +37,54 @@ def run(chk: Check, proj: Project) -> None:
     s5(chk, proj, w, m)
     s6(chk, proj, w, m)
     s7(chk, proj, w, m)
+    s9_protection_is_replaced(chk, proj)
+    s10_settings_getter_is_live(chk, proj, m, cls)
+
+
+def s9_protection_is_replaced(chk: Check, proj: Project) -> None:
+    chk.rule("S9", "which tags a Library protects is what the LAST call of mark_protected_tags said: the stored list is computed from the argument (or the built-in table) alone, never from the list stored before - an accumulating setter can never lift or narrow a protection, so register() keeps raising TagProtectedError for a name that is free again")
+    lm, f = proj.func("library", "mark_protected_tags")
+    chk.analysed(fkey(lm, f))
+    lib = params(f)[0]
+    sts = [st for st in stmts(f) if isinstance(st, (ast.Assign, ast.AugAssign)) and any(isinstance(t, ast.Attribute) and isinstance(t.value, ast.Name) and t.value.id == lib for t in (st.targets if isinstance(st, ast.Assign) else [st.target]))]
+    chk.floor("S9", len(sts), 1)
+    for st in sts:
+        attr = (st.targets[0] if isinstance(st, ast.Assign) else st.target).attr
+        # names the value depends on, through local definitions
+        seen: Set[str] = set()
+        todo = [st.value]
+        reads_old = isinstance(st, ast.AugAssign)
+        while todo:
+            e = todo.pop()
+            for x in ast.walk(e):
+                if isinstance(x, ast.Attribute) and x.attr == attr and isinstance(x.value, ast.Name) and x.value.id == lib:
+                    reads_old = True
+                if isinstance(x, ast.Call) and norm(x.func) == "getattr" and len(x.args) >= 2 and isinstance(x.args[1], ast.Constant) and x.args[1].value == attr:
+                    reads_old = True
+                if isinstance(x, ast.Name) and x.id not in seen:
+                    seen.add(x.id)
+                    todo += [v for _s, v in assignments(f, x.id) if v is not None]
+        chk.ob("S9", f"library:mark_protected_tags:{lib}.{attr}-replaced-not-accumulated", lm.loc(st), not reads_old,
+               "the stored list is built from the argument / the built-in table only" if not reads_old else
+               f"`{short(st)}` merges the new list into the one stored before: after mark_protected_tags(lib, ['alpha']) a later mark_protected_tags(lib, ['beta']) still protects 'alpha' - registering a component under a formatter that yields the start tag `alpha` raises TagProtectedError although the name is free")
+
+
+def s10_settings_getter_is_live(chk: Check, proj: Project, m, cls) -> None:
+    chk.rule("S10", "a registry follows the CURRENT settings for every field it was not given: the getter stored by the `settings` property re-reads app_settings (and a callable input) on every access - a getter that returns a value resolved once freezes `tag_formatter` at first use, so a component registered after COMPONENTS.tag_formatter changed is installed under the old tag and unregister() looks for the new one")
+    prop = next((x for x in cls.body if isinstance(x, ast.FunctionDef) and x.name == "settings"), None)
+    if prop is None:
+        raise AnalysisError("ComponentRegistry.settings vanished")
+    chk.analysed(f"{m.name}:ComponentRegistry.settings")
+    sts = [st for st in ast.walk(prop) if isinstance(st, ast.Assign) and any(norm(t) == "self._settings" for t in st.targets)]
+    chk.floor("S10", len(sts), 1)
+    nested = {x.name: x for x in ast.walk(prop) if isinstance(x, ast.FunctionDef) and x is not prop}
+    for st in sts:
+        v = st.value
+        body = nested.get(v.id) if isinstance(v, ast.Name) else v if isinstance(v, ast.Lambda) else None
+        live = body is not None and any(isinstance(x, ast.Name) and x.id == "app_settings" for x in ast.walk(body))
+        chk.ob("S10", f"component_registry:ComponentRegistry.settings:{short(st, 50)}:getter-reads-current-settings", m.loc(st), live,
+               "the stored getter reads app_settings when it is called" if live else
+               f"`{short(st)}` stores a getter that does not read app_settings itself (it returns something resolved earlier): fields the registry was not given (a partial RegistrySettings(context_behavior=...)) stop following COMPONENTS - after the tag formatter changes, register() installs the new component under the OLD formatter's tag")
 
 
 _FIXTURE_DUP = "def f(s):\n    return s.tag_formatter or s.tag_formatter\n"
